@@ -185,16 +185,26 @@ def check_base(ctx, base, rng, nvariants):
         except ValueError:
             ctx.out_of_domain("variant not lexable by the reference")
             continue
+        witness = {"base": base, "variant": text, "edits": sorted(edits)}
         if signature(toks) != sb:
-            ctx.out_of_domain("edit changed the token stream (not a layout edit)")
-            continue
+            if "spaces" in edits:
+                # inserted spaces can merge with indentation or split tokens: excluded by the quantifier
+                ctx.out_of_domain("edit changed the token stream (not a layout edit)")
+                continue
+            # comments, blank lines, line-ending style, tab spelling and the final newline can never change the
+            # token stream of a language in which they are insignificant
+            ctx.case(text, True, tags=["edit:" + e for e in edits])
+            return ctx.violation("layout-changes-token-stream:" + "+".join(sorted(edits - {"before-metadata", "inside-loop-body"})),
+                                 "edits %s (no spacing edit) change the token stream prescribed by the grammar file: the lexer rules treat a layout the property declares insignificant as significant" % sorted(edits), witness)
         if not ok:
+            if edits <= {"eol-comment", "crlf", "cr", "tab-swap"}:
+                ctx.case(text, True, tags=["edit:" + e for e in edits])
+                return ctx.violation("layout-makes-ungrammatical:" + "+".join(sorted(edits)), "edits %s make a valid script ungrammatical" % sorted(edits), witness)
             ctx.out_of_domain("edit made the text ungrammatical (not a layout the language declares insignificant)")
             continue
         nt = len(edits) >= 3 and rich
         ctx.case(text, nt, tags=["edit:" + e for e in edits])
         ctx.sample({"base": base, "variant": text, "edits": sorted(edits)}, limit=1)
-        witness = {"base": base, "variant": text, "edits": sorted(edits)}
         Q, exc = common.real_loads(text)
         if exc is not None:
             return ctx.violation("variant-raises:" + common.exc_key(exc), "a layout variant (%s) raised %s" % (sorted(edits), common.exc_text(exc)), witness)
